@@ -2323,6 +2323,8 @@ def lib_call(fr: Frame, dotted: str, args, kwargs, node):
         out = AList(items, I.loop_depth)
         out.generic = generic
         return out
+    if dotted == "builtins.id" and len(args) == 1:
+        return Term("id()", _t(args[0]))
     if dotted == "builtins.enumerate":
         return Term("enumerate", _t(args[0]))
     if dotted == "builtins.dict":
